@@ -145,6 +145,50 @@ impl<KT: DbMapKeyType> FileDbXxxInner<KT> {
 // delete: NEW
 impl<KT: DbMapKeyType> FileDbXxxInner<KT> {}
 
+// relink: a key piece that no longer fits its piece is rewritten elsewhere
+impl<KT: DbMapKeyType> FileDbXxxInner<KT> {
+    /// The key piece at `old_offset` has been moved to `new_offset`.
+    /// Repoints the bucket head or the previous key piece of the bucket chain to it.
+    /// The previous key piece can move too when it is rewritten, so this repeats
+    /// towards the head of the chain.
+    fn relink_moved_key_piece(
+        &mut self,
+        hash: HashValue,
+        old_offset: KeyPieceOffset,
+        new_offset: KeyPieceOffset,
+    ) -> Result<()> {
+        let mut old_offset = old_offset;
+        let mut new_offset = new_offset;
+        while old_offset != new_offset {
+            // look for the piece that is linking to `old_offset`.
+            let mut prev_offset = KeyPieceOffset::new(0);
+            let mut offset = self.htx_file.read_key_piece_offset(hash)?;
+            {
+                let mut locked_key = self.key_file.0.borrow_mut();
+                while !offset.is_zero() && offset != old_offset {
+                    prev_offset = offset;
+                    offset = locked_key.read_piece_only_bucket_next_offset(offset)?;
+                }
+            }
+            if offset.is_zero() {
+                return Err(std::io::Error::new(
+                    std::io::ErrorKind::InvalidData,
+                    "the moved key piece is not in its bucket chain",
+                ));
+            }
+            if prev_offset.is_zero() {
+                return self.htx_file.write_key_piece_offset(hash, new_offset);
+            }
+            let mut prev_key_piece = self.key_file.read_piece(prev_offset)?;
+            prev_key_piece.bucket_next_offset = new_offset;
+            let new_prev_key = self.key_file.write_piece(prev_key_piece)?;
+            old_offset = prev_offset;
+            new_offset = new_prev_key.offset;
+        }
+        Ok(())
+    }
+}
+
 // find: NEW
 impl<KT: DbMapKeyType> FileDbXxxInner<KT> {
     fn find_in_hash_buckets_kt(
@@ -253,7 +297,8 @@ impl<KT: DbMapKeyType> DbXxxObjectSafe<KT> for FileDbXxxInner<KT> {
         if let Some((key_offset, _prev_key_offset)) = opt {
             let new_key_offset = self.store_value_on_insert(key_offset, value)?;
             if key_offset != new_key_offset {
-                unimplemented!("key_offset != new_key_offset : in put_kt");
+                _cold();
+                self.relink_moved_key_piece(hash, key_offset, new_key_offset)?;
             }
         } else {
             _cold();
@@ -291,7 +336,7 @@ impl<KT: DbMapKeyType> DbXxxObjectSafe<KT> for FileDbXxxInner<KT> {
                 let new_prev_key = self.key_file.write_piece(prev_key_piece)?;
                 if _prev_key_offset != new_prev_key.offset {
                     _cold();
-                    panic!("_prev_key_offset != new_prev_key_offset : in del_kt");
+                    self.relink_moved_key_piece(hash, _prev_key_offset, new_prev_key.offset)?;
                 }
             }
             //
